@@ -3,6 +3,7 @@ CONSTANTS
  FFs <- FFcat
  Dev <- NoDev
  HInputs <- HIn4
+ HLib <- NoLib4
  NInputs <- NIn
  MaxLen = 3
  Fresh <- FreshOf
